@@ -1,7 +1,11 @@
 // world `heap` (C19): object lifecycle over a pool of live objects of one family, with a tracking allocator and instrumented items.
 #include "../sim/driver.hpp"
 #include "../sim/seams.hpp"
-#if defined(GROUP_DISTINCT)
+#if defined(GROUP_OPS)
+#include "../sim/fam_ops.hpp"
+static void register_families() { fam::register_ops(); }
+#define GROUP_NAME "o"
+#elif defined(GROUP_DISTINCT)
 #include "../sim/fam_distinct.hpp"
 static void register_families() { fam::register_distinct(); }
 #define GROUP_NAME "d"
@@ -11,7 +15,7 @@ static void register_families() { fam::register_quant(); }
 #define GROUP_NAME "q"
 #else
 #include "../sim/fam_misc.hpp"
-static void register_families() { fam::register_misc(); }
+static void register_families() { fam::register_misc(); fam::register_misc_heap_extra(); }
 #define GROUP_NAME "m"
 #endif
 
